@@ -161,6 +161,7 @@ def cases(tier, seed):
     for kind in KINDS:
         if kind != "GridB":
             out.append({"above": kind})
+    out.append({"noise_reset": True})
     return out
 
 
@@ -460,9 +461,65 @@ def _histories(seq, shape, ops, use_sum, depth, fails, tag, only_hist=None):
     return count
 
 
+def _noise_reset_case(case):
+    """clear(reset_noise=True) on a detector reaches every antenna -- also those that received nothing in this round but had
+    their noise read out; clear() without it keeps every antenna's noise."""
+    from pyrex.antenna import Antenna
+    from pyrex.detector import Detector
+    from pyrex.signals import Signal
+    from ..engine import rng
+    DT = 2.0 ** -30
+    t = np.arange(32) * DT
+
+    class NoisyLine(Detector):
+        def set_positions(self, n):
+            for i in range(n):
+                self.antenna_positions.append((0.0, 3.0 * i, -20.0 - i))
+
+        def build_antennas(self):
+            self.subsets = [Antenna(position=p_, temperature=300.0, resistance=50.0, freq_range=(1 / (16 * DT), 3 / (16 * DT)), noisy=True)
+                            for p_ in self.antenna_positions]
+    fails, nontriv = [], []
+    n = 0
+    for nest in (False, True):
+        for pat in itertools.product((0, 1), repeat=3):
+            for reset in (True, False):
+                n += 1
+                with rng.owned(rng.WeylSource(0.271)):
+                    det = NoisyLine(3)
+                    det.build_antennas()
+                    if nest:
+                        extra = NoisyLine(1)
+                        extra.build_antennas()
+                        det = det + extra
+                    ants = list(det)
+                    for a, h in zip(ants, pat + (0,)):
+                        if h:
+                            a.receive(Signal(t, 2.0 * np.sin(np.arange(32) * 0.7), Signal.Type.voltage))
+                    before = [np.array(a.make_noise(t).values) for a in ants]
+                    det.clear(reset_noise=reset)
+                    after = [np.array(a.make_noise(t).values) for a in ants]
+                same = [bool(np.array_equal(x, y)) for x, y in zip(before, after)]
+                label = "%s, signals on %s, clear(reset_noise=%s)" % ("combined detector" if nest else "detector", list(pat), reset)
+                nontriv.append("noise|%s|%s|%s" % (nest, pat, reset))
+                if reset and any(same):
+                    fails.append({"check": "clear-reset-noise", "what": "%s: antennas %s kept their noise realisation"
+                                                                      % (label, [i for i, s_ in enumerate(same) if s_]),
+                                  "tags": {"group": "clear-reset-noise"}})
+                if not reset and not all(same):
+                    fails.append({"check": "clear-keeps-noise", "what": "%s: antennas %s changed their noise realisation without a reset"
+                                                                      % (label, [i for i, s_ in enumerate(same) if not s_]),
+                                  "tags": {"group": "clear-keeps-noise"}})
+                if any(len(a.signals) for a in ants):
+                    fails.append({"check": "clear", "what": "%s: signals left after clear" % label, "tags": {"group": "clear"}})
+    return {"n": n, "nontrivial": nontriv, "fails": fails, "states": n, "transitions": 3 * n, "sample": {"noise_reset": True}}
+
+
 def evaluate(case):
     C = _classes()
     fails = []
+    if case.get("noise_reset"):
+        return _noise_reset_case(case)
     if "above" in case:
         kind = case["above"]
         n = 0
